@@ -59,7 +59,7 @@ Qed.
    iterator after a Set (stale) *)
 Example C04_translated_runs :
   let pre := [OpPushBack 1; OpPushBack 2; OpPushBack 3; OpPopFront; OpPushFront 4; OpPushFront 5; OpPushFront 6] in
-  let d := sd (run_state 0 deque_minSize deque_growMul st0 pre) in
+  let d := sd (run_state 0 16 2 st0 pre) in   (* explicit constants: the example does not depend on the shipped ones *)
   let z := [0; 0; 0; 0; 0; 0; 0; 0; 0; 0; 0] in
   ((front d, back d, cap d), gi_Deque_Len d, gi_Deque_Item 4 d, gi_Deque_Item 5 d,
    gi_Deque_Grow 0 9223372036854775807 d,
